@@ -580,7 +580,9 @@ impl GroupAggregator {
             GroupAggregator::StandardDeviation { .. } => Ok(None),
             GroupAggregator::Percentile { values, percentile } => {
                 values.sort();
-                Ok(values.get((*percentile * values.len() as f64) as usize).cloned())
+                // The percentile is in [0, 1]: 1.0 is the largest value (not an index outside the values)
+                let index = ((*percentile * values.len() as f64) as usize).min(values.len().saturating_sub(1));
+                Ok(values.get(index).cloned())
             }
             GroupAggregator::BoolAnd { .. } => Ok(None),
             GroupAggregator::BoolOr { .. } => Ok(None),
